@@ -7,6 +7,6 @@ open SigModel.Proto SigModel.Hub SigModel.Driver.HubCommon
 abbrev St := HubCommon.St
 
 def step (st : St) (op impl : List String) : St × String × String :=
-  stepWith (fun st _ _ impl => verdictOf ((judgeTables impl).filter (fun e => hasPrefix "residue" e || hasPrefix "listener" e || hasPrefix "empty-room" e) ++ judgeLimits st.limits impl)) st op impl
+  stepWith (fun st _ _ impl => verdictOf ((judgeTables impl).filter (fun e => hasPrefix "residue" e || hasPrefix "listener" e || hasPrefix "empty-room" e) ++ judgeLimits st.limits impl ++ judgeFederated impl)) st op impl
 
 end SigModel.Driver.C07
